@@ -50,6 +50,12 @@ MapCases == {[u |-> Doc1(Stamp(kw, (kw :> ((k :> T(1)) @@ ("zz" :> T(2)))) @@ Pr
                : kw \in (MapKW \ {"patternProperties", "properties"}), k \in KeyStrs}
             \cup {[u |-> Doc1([properties |-> (k :> T(1)) @@ ("zz" :> T(2)) @@ [r |-> [ref |-> LocalRef(FragPtr(<<SegN("properties", k)>>))]]]),
                     kw |-> "properties"] : k \in KeyStrs \ {"r"}}
+\* twins: the map also has a key whose LITERAL text is the escaped spelling of the designated key
+\* ("~" next to "~0", "/" next to "~1", "~0" next to "~00"): a segment is unescaped before the lookup, always
+TwinCases == {[u |-> Doc1(Stamp(kw, (kw :> ((Join(t) :> T(1)) @@ (Join(Esc(t)) :> T(2)))) @@ PropR(LocalRef(FragPtr(<<SegN(kw, Join(t))>>))))), kw |-> kw]
+                : kw \in {"defs", "depSchemas", "dependentSchemas", "definitions"}, t \in {x \in Tokens : Esc(x) # x}}
+             \cup {[u |-> Doc1([properties |-> (Join(t) :> T(1)) @@ (Join(Esc(t)) :> T(2)) @@ [r |-> [ref |-> LocalRef(FragPtr(<<SegN("properties", Join(t))>>))]]]),
+                     kw |-> "properties"] : t \in {x \in Tokens : Esc(x) # x}}
 \* depth 2: a keyword under a keyed / indexed parent
 NestCases ==
   {[u |-> Doc1([defs |-> (k :> [properties |-> (k2 :> T(1)) @@ ("zz" :> T(2)), allOf |-> <<T(3)>>])]
@@ -76,7 +82,7 @@ GoodRaw == {<<"/allOf/0", 1>>, <<"/allOf/1", 2>>, <<"/$defs/a", 3>>, <<"/items",
 BadCases == {[u |-> Doc1(BadDoc @@ [properties |-> [p |-> TN(5), r |-> [ref |-> Ref(EmptyURI, [k |-> "raw", s |-> p])]]]), kw |-> "bad", raw |-> p, want |-> 99] : p \in BadPtrs}
             \cup {[u |-> Doc1(BadDoc @@ [properties |-> [p |-> TN(5), r |-> [ref |-> Ref(EmptyURI, [k |-> "raw", s |-> g[1]])]]]), kw |-> "good", raw |-> g[1], want |-> g[2]] : g \in GoodRaw}
 
-Cases == CASE Family = "P1" -> SingleCases \cup SeqCases \cup MapCases \cup NestCases
+Cases == CASE Family = "P1" -> SingleCases \cup SeqCases \cup MapCases \cup TwinCases \cup NestCases
            [] Family = "P2" -> BadCases
 
 Init == cs \in Cases /\ phase = "new"
